@@ -45,14 +45,25 @@ def seeds_of(fnode):
     return out
 
 
+def loop_counter(L):
+    """name of the per-instance counter of a loop found by instance_loop"""
+    if isinstance(L.target, ast.Tuple):
+        return L.target.elts[0].id
+    return L.target.id
+
+
 def instance_loop(fnode):
-    """The per-instance loop: a for loop over enumerate(...) that contains a
-    grant (append of the counter / store into X[counter])."""
+    """The per-instance loop: `for i, x in enumerate(...)` or `for i in range(len(...))`
+    (the last such loop of the function)."""
     best = None
     for n in ast.walk(fnode):
-        if isinstance(n, ast.For) and isinstance(n.iter, ast.Call) and isinstance(n.iter.func, ast.Name) \
-                and n.iter.func.id == "enumerate" and isinstance(n.target, ast.Tuple) \
-                and isinstance(n.target.elts[0], ast.Name):
+        if not isinstance(n, ast.For) or not isinstance(n.iter, ast.Call) or not isinstance(n.iter.func, ast.Name):
+            continue
+        if n.iter.func.id == "enumerate" and isinstance(n.target, ast.Tuple) and isinstance(n.target.elts[0], ast.Name):
+            best = n
+        elif n.iter.func.id == "range" and len(n.iter.args) == 1 and isinstance(n.target, ast.Name) \
+                and isinstance(n.iter.args[0], ast.Call) and isinstance(n.iter.args[0].func, ast.Name) \
+                and n.iter.args[0].func.id == "len":
             best = n
     return best
 
@@ -581,7 +592,7 @@ def run(p, report, tier):
             report.add("R4.1", ent, "per-instance loop", f"{f.file}:{fnode.lineno}", False,
                        detail="no `for i, x in enumerate(...)` loop containing the decisions")
             continue
-        counter = L.target.elts[0].id
+        counter = loop_counter(L)
         seeds = seeds_of(fnode)
         # running locals = seeded locals that are redefined inside the loop
         redefined = set()
